@@ -367,7 +367,7 @@ def _kinds(repo):
 @item("C09_INDEXABLE_OBJECTS")
 def _indexable(repo):
     """every `impl Object for T` in minijinja/src that defines `get_value`, and whether that
-    `get_value` has an integer-key path (`as_usize` / `as_i64` / forwards to `get_item`).  The C09
+    `get_value` has an integer-key path (`as_usize` / `as_i64` / forwards to `get_item` / `get_item_opt`).  The C09
     harness must subscript a value of each integer-indexable type (lib/props/c09.py checks it)."""
     import os
     root = os.path.join(repo, "minijinja", "src")
@@ -386,7 +386,7 @@ def _indexable(repo):
                 if not g:
                     continue
                 gv = fn_body(body[g.start():], r"\)\s*->\s*Option<Value>\s*\{")
-                intpath = bool(re.search(r"as_usize\(\)|as_i64\(\)|\.get_item\(", gv))
+                intpath = bool(re.search(r"as_usize\(\)|as_i64\(\)|\.get_item(?:_opt)?\(", gv))
                 found.append((os.path.basename(rel) + ":" + name, "int" if intpath else "other"))
     if not found:
         raise KeyError("no Object impls with get_value")
@@ -659,3 +659,106 @@ def _mergeseq_flatten(repo):
             raise KeyError("MergeSeq::with_repr shape: " + piece[:40])
     steps = ["pop-last", "merge:extend-operands-reversed", "other:push"]
     return steps, "def c09MergeFlatten : List String := %s" % _lst(steps)
+
+
+# ------------------------------------------------------------------------------------------
+# session 4: the enumerator layer under `ops::slice` / `get_item_opt` for objects
+OBJ = "minijinja/src/value/object.rs"
+
+
+@item("C09_ENUMERATOR_ARMS")
+def _enumerator_arms(repo):
+    """what objects hand to `ops::slice` and `get_item_opt`: the arms of `try_iter` (what an object of
+    each `Enumerator` variant yields), of `Enumerator::query_len` (what it announces as its length),
+    the default `enumerator_len`, the length `get_item_opt` offers to `index` for `ObjectRepr::Seq`
+    objects, and the data flow of the non-tuple object arm of `ops::slice` (which length stands in
+    where).  The Lean model of objects (`MJ.Sub.Obj`, MJ/Model/SubObj.lean) interprets these tables."""
+    src = _nocomment(read(repo, OBJ))
+    flat = lambda s: re.sub(r"\s+", " ", s).strip()
+    helpers = fn_body(src, r"macro_rules! impl_object_helpers\s*\{")
+    ti = fn_body(helpers, r"fn try_iter\(self: \$self_ty\) -> Option<Box<dyn Iterator<Item = Value> \+ Send \+ Sync>>\s*where\s*Self: 'static,\s*\{")
+    tm = fn_body(ti, r"match self\.enumerate\(\)\s*\{")
+    pairs_or_keys = "{ if let ObjectRepr::Map = self.repr() { Some(Box::new(iter.map(|(key, _)| key))) } else { Some(Box::new(iter.map(Value::from))) } }"
+    want_iter = {
+        "NonEnumerable": ("None", "none"),
+        "Empty": ("Some(Box::new(None::<Value>.into_iter()))", "empty"),
+        "Seq": ("{ let self_clone = self.clone(); Some(Box::new((0..l).map(move |idx| { self_clone.get_value(&Value::from(idx)).unwrap_or_default() }))) }",
+                "get_value-by-position"),
+        "Iter": ("Some(iter)", "iter"),
+        "RevIter": ("Some(Box::new(iter))", "iter"),
+        "KeyValueIter": (pairs_or_keys, "keys-if-map-else-pairs"),
+        "RevKeyValueIter": (pairs_or_keys, "keys-if-map-else-pairs"),
+        "Str": ("Some(Box::new(s.iter().copied().map(Value::from)))", "names"),
+        "Values": ("Some(Box::new(v.into_iter()))", "values"),
+    }
+    iter_arms = []
+    for pat, expr in _arms(tm):
+        v = re.findall(r"Enumerator::(\w+)", pat)
+        if len(v) != 1 or v[0] not in want_iter:
+            raise KeyError("try_iter arm " + pat)
+        text, how = want_iter[v[0]]
+        if flat(expr) != text:
+            raise KeyError("try_iter: arm %s changed" % v[0])
+        iter_arms.append((v[0], how))
+    ql = fn_body(src, r"fn query_len\(&self\) -> Option<usize>")
+    qm = fn_body(ql, r"Some\(match self\s*\{")
+    if not flat(ql).startswith("Some(match self {"):
+        raise KeyError("query_len shape")
+    hint = "match i.size_hint() { (a, Some(b)) if a == b => a, _ => return None, }"
+    want_len = {"Empty": ("0", "zero"), "Values": ("v.len()", "len"), "Str": ("v.len()", "len"), "Iter": (hint, "exact-size-hint"),
+                "KeyValueIter": (hint, "exact-size-hint"), "RevIter": (hint, "exact-size-hint"), "RevKeyValueIter": (hint, "exact-size-hint"),
+                "Seq": ("*v", "announced"), "NonEnumerable": ("return None", "none")}
+    len_arms = []
+    for pat, expr in _arms(qm):
+        v = re.findall(r"Enumerator::(\w+)", pat)
+        if len(v) != 1 or v[0] not in want_len:
+            raise KeyError("query_len arm " + pat)
+        text, how = want_len[v[0]]
+        if flat(expr) != text:
+            raise KeyError("query_len: arm %s changed" % v[0])
+        len_arms.append((v[0], how))
+    el = flat(fn_body(src, r"fn enumerator_len\(self: &Arc<Self>\) -> Option<usize>"))
+    if el != "self.enumerate().query_len()":
+        raise KeyError("Object::enumerator_len default")
+    # get_item_opt, Seq arm: which length `index` gets
+    vm = _nocomment(read(repo, VMOD))
+    gi = fn_body(vm, r"pub\(crate\) fn get_item_opt\(&self, key: &Value\) -> Option<Value>")
+    sa = re.search(r"ObjectRepr::Seq => \{(.*?)\n                \}", gi, re.S)
+    if not sa:
+        raise KeyError("get_item_opt Seq arm")
+    seq_arm = flat(sa.group(1))
+    if seq_arm == ("let idx = index(key, || { dy.enumerator_len() .or_else(|| dy.try_iter().map(|iter| iter.count())) }) .map(Value::from); "
+                   "dy.get_value(idx.as_ref().unwrap_or(key))"):
+        seq_len = "len-or-count-on-demand"
+    elif seq_arm == "let idx = index(key, || dy.enumerator_len()).map(Value::from); dy.get_value(idx.as_ref().unwrap_or(key))":
+        seq_len = "len"
+    else:
+        raise KeyError("get_item_opt Seq arm changed")
+    # ops::slice, the lazy (non-tuple) object arm
+    ops = _nocomment(read(repo, OPS))
+    sl = flat(fn_body(ops, r"pub fn slice\(value: Value, start: Value, stop: Value, step: Value\)"))
+    flow = []
+    for name, piece in [
+        ("tuple:items", "let values = obj .try_iter() .map(|iter| iter.collect::<Vec<_>>()) .unwrap_or_default();"),
+        ("tuple:forward-len", "get_offset_and_len(start, stop, || values.len());"),
+        ("tuple:backward-len", "range_step_backwards(start, stop, step.unsigned_abs() as usize, values.len())"),
+        ("forward:known-len", "if step > 0 { let known_len = obj.enumerator_len();"),
+        ("forward:from-end", "let from_end = start.map_or(false, |x| x < 0) || stop.map_or(false, |x| x < 0);"),
+        ("forward:collect-if", "if known_len.is_none() && from_end { let vec: Vec<Value> = iter.collect(); let (start, len) = get_offset_and_len(start, stop, || vec.len()); "
+                               "Box::new(vec.into_iter().skip(start).take(len).step_by(step as usize)) }"),
+        ("forward:lazy", "else { let (start, len) = get_offset_and_len(start, stop, || known_len.unwrap_or(usize::MAX)); "
+                         "Box::new(iter.skip(start).take(len).step_by(step as usize)) }"),
+        ("backward:collect", "if let Some(iter) = obj.try_iter() { let vec: Vec<Value> = iter.collect(); Box::new( range_step_backwards( start, stop, "
+                             "step.unsigned_abs() as usize, vec.len(), ) .map(move |i| vec[i].clone()), ) }"),
+        ("not-iterable:empty", "} else { Box::new(None.into_iter()) }"),
+    ]:
+        if piece not in sl:
+            raise KeyError("ops::slice object arm: " + name)
+        flow.append(name)
+    if sl.count("} else { Box::new(None.into_iter()) }") != 2:
+        raise KeyError("ops::slice object arm: not-iterable branches")
+    lean = ("def c09TryIterArms : List (String × String) := %s\n"
+            "def c09QueryLenArms : List (String × String) := %s\n"
+            "def c09GetItemSeqLen : String := %s\n"
+            "def c09SliceObjectFlow : List String := %s" % (_pairs(iter_arms), _pairs(len_arms), lean_str(seq_len), _lst(flow)))
+    return {"try_iter": iter_arms, "query_len": len_arms, "seq_len": seq_len, "slice_flow": flow}, lean
